@@ -55,7 +55,7 @@ func (c StepCase) String() string {
 	return fmt.Sprintf("%s parked at pass %d of %s", c.Victim, c.Skip+1, c.Site)
 }
 
-var StepVictims = []string{"join", "leave", "switch", "delete", "lastleave", "create", "compadd-vs-delete", "compadd-vs-leave", "action-vs-delete", "action-vs-leave"}
+var StepVictims = []string{"join", "leave", "switch", "delete", "lastleave", "create", "compadd-vs-delete", "compadd-vs-leave", "action-vs-delete", "action-vs-leave", "action-vs-action"}
 
 // stepSiteOK: points on the victim's own path; points that every connection
 // or the frame worker pass all the time would park somebody else.
@@ -174,6 +174,9 @@ func stepSetup(p *sut.Proc, victim string) *stepEnv {
 		must(err)
 		_, err = o.Action(en.eO, "oa", 1_700_000_002, "o")
 		must(err)
+	case "action-vs-action":
+		_, _, err = v.Join(en.sid)
+		must(err)
 	case "create":
 	case "lastleave":
 		_, _, err = v.Join("")
@@ -255,6 +258,11 @@ func (en *stepEnv) fire(victim string) {
 		v.Close()
 	case "compadd-vs-delete", "compadd-vs-leave":
 		must(v.Send(&hagallpb.EntityComponentAddRequest{Type: d.TCompAddReq, Timestamp: d.NewTag(), RequestId: v.NextReqID(), EntityComponentTypeId: en.t2, EntityId: en.eO, Data: []byte("late")}))
+	case "action-vs-action":
+		// older than the action the mutator's script sets on the same key
+		// (1_700_000_100), newer than the one stored at setup (1_700_000_000)
+		must(v.Send(&vikjapb.EntityActionRequest{Type: d.TActionReq, Timestamp: d.NewTag(), RequestId: v.NextReqID(),
+			EntityAction: &vikjapb.EntityAction{EntityId: en.e0, Name: "a0", Timestamp: &timestamppb.Timestamp{Seconds: 1_700_000_050}, Data: []byte("older")}}))
 	case "action-vs-delete", "action-vs-leave":
 		must(v.Send(&vikjapb.EntityActionRequest{Type: d.TActionReq, Timestamp: d.NewTag(), RequestId: v.NextReqID(),
 			EntityAction: &vikjapb.EntityAction{EntityId: en.eO, Name: "late", Timestamp: &timestamppb.Timestamp{Seconds: 1_700_000_300}, Data: []byte("late")}}))
@@ -841,6 +849,13 @@ func (en *stepEnv) judgeSession(c StepCase, res *StepResult, snap *scen.Snapshot
 	}
 	if strings.HasSuffix(c.Victim, "-vs-leave") {
 		departedChecks("the owner that left while the victim was attaching to its entity", en.o, en.eO, 0)
+	}
+	if c.Victim == "action-vs-action" {
+		// both actions were accepted (or the older one refused): the server keeps the latest timestamp
+		got := server.Actions[model.ActKey{Entity: en.e0, Name: "a0"}]
+		if got.Sec != 1_700_000_100 || string(got.Data) != "y" {
+			res.Findings = append(res.Findings, sf([]string{"C16"}, "action/latest-timestamp-not-kept", c, "an action with timestamp 1700000100 was accepted for (entity %d, \"a0\") while another connection was setting one with timestamp 1700000050 on the same key; a probe is handed timestamp %d data %q: the older action replaced the newer one", en.e0, got.Sec, got.Data))
+		}
 	}
 	if strings.HasPrefix(c.Victim, "compadd-") || strings.HasPrefix(c.Victim, "action-") {
 		// the victim's request is answered exactly once
